@@ -42,6 +42,7 @@ class Ctx:
 
     # ---- facts
     def facts(self, cfg="A", raw=False):
+        cfg = getattr(self, "cfgmap", {}).get(cfg, cfg)
         if cfg not in self.configs_used:
             self.configs_used.append(cfg)
         f = factsmod.load(cfg)
@@ -55,6 +56,7 @@ class Ctx:
 
     # ---- rule bookkeeping
     def rule(self, name):
+        name = name + getattr(self, "rule_suffix", "")
         self.cur_rule = name
         self.rules.setdefault(name, [0, 0])
 
@@ -91,6 +93,10 @@ class Ctx:
 
     def floor(self, what, count, minimum):
         """fail closed when a rule matched fewer instances than were confirmed by hand"""
+        if getattr(self, "cfgmap", None) and "panic" in what:
+            # the number of compiler-inserted assertions is a property of the build profile (counted for the
+            # default profile); on the other configurations only require that the audit ran
+            minimum = min(minimum, 1)
         self.check(count >= minimum, "floor:%s" % what,
                    "rule matched %d instance(s) of %s, fewer than the %d confirmed by reading: "
                    "the mechanism the property is anchored in has gone or is no longer recognised"
@@ -190,6 +196,16 @@ def run_property(pid, tier, seed, runner, doc=""):
     ctx = Ctx(pid, tier, seed)
     try:
         runner(ctx)
+        if tier == "thorough" and os.environ.get("CVA_ONE_CONFIG") != "1":
+            # the same rules on the other build configurations (what a user may compile): B overflow-checks and
+            # debug assertions off, C the PEXT slider back end, D the `std` feature
+            for other in ("B", "C", "D"):
+                ctx.cfgmap = {"A": other}
+                ctx.rule_suffix = " [config %s]" % other
+                ctx.cur_rule = None
+                runner(ctx)
+            ctx.cfgmap = {}
+            ctx.rule_suffix = ""
     except factsmod.MissingAnchor as e:
         ctx.rule("anchor")
         ctx.fail("missing:%s" % e, "public anchor or role %s cannot be resolved in the current tree; "
